@@ -11,7 +11,10 @@ from checks import common
 
 CODES = {1: 'walk(all targets, file) differs from the model', 2: 'walk from a sub-root differs from the model',
          3: 'extract_targets_from_node(subset) differs from the model', 4: 'extract_target_from_node(single) differs from the model',
-         11: 'implementation output is not the complete pre-order filtered by kind (specification)'}
+         11: 'implementation output is not the complete pre-order filtered by kind (specification)',
+         12: 'the walk from a sub-root is not the complete pre-order of that node (specification)',
+         13: 'extract_targets_from_node(subset) does not return exactly the nodes of the requested kinds in pre-order (specification)',
+         14: 'extract_target_from_node(single) does not return every node of the requested kind exactly once (specification)'}
 
 
 def exprs_for(p, r):
@@ -97,7 +100,7 @@ def run(rep, ctx):
             small = common.shrink(p['src'], still) if ctx.tier else p['src']
             _, o = evaluate(ctx, [{'gen': 'min', 'src': small}], 'shrink')
             pp, rr, ff, ss = o[0]
-            spec = 11 in ff or 'PANIC' in ff
+            spec = bool({11, 12, 13, 14} & set(ff)) or 'PANIC' in ff
             rep.violation('; '.join(CODES.get(c, str(c)) for c in ff),
                           {'kind': 'S' if spec else 'M', 'input': small, 'original_gen': p['gen'], 'failed_subchecks': ff,
                            'impl_walk_all': rr['walk'].get('all') if isinstance(rr['walk'], dict) else 'PANIC',
